@@ -767,10 +767,18 @@ func (s *Sim) doRecv(op Op, r *PacketRec, on *world.Chain, alter string, aux int
 	case "signer":
 		signer = on.Accounts[[]int{0, world.OutsiderIdx}[mod(aux, 2)]]
 	}
-	// the proof is always for the key the *message* names unless the alteration says otherwise
+	// the proof is for the key the *message* names, or (odd u) the genuine proof of the original
+	// packet is kept while the message fields are altered
 	keyPkt := msgPkt
 	if alter == "proof-other" {
 		keyPkt = proofKeyPkt
+	}
+	switch alter {
+	case "seq+1", "seq-1", "src", "dst", "swap", "never-sent":
+		if u%2 == 1 {
+			keyPkt = p
+			st.Note += "orig-proof"
+		}
 	}
 	qh := ph
 	msg, err := s.W.RecvMsg(on.Name, proofFrom, keyPkt, qh, signer.Addr)
@@ -999,7 +1007,18 @@ func (s *Sim) pickN(chain, src, dst string, kind int, u uint64) uint64 {
 		}
 		contig = q
 	}
-	switch mod(kind, 9) {
+	var maxAcked uint64
+	for q := max; q > cp; q-- {
+		if len(s.CommitmentAt(src, src, dst, q, s.W.Chains[src].Height)) == 0 {
+			maxAcked = q
+			break
+		}
+	}
+	switch mod(kind, 12) {
+	case 9, 10:
+		return maxAcked
+	case 11:
+		return maxAcked + 1
 	case 0:
 		return contig
 	case 1:
@@ -1024,7 +1043,7 @@ func (s *Sim) pickN(chain, src, dst string, kind int, u uint64) uint64 {
 	}
 }
 
-// opClean: A=channel, B=N kind, C=relay choice, D: signer (0 relayer, 1 user, 2 outsider), U aux
+// opClean: A=channel, C=N kind, B=relay choice, D: signer (0 relayer, 1 user, 2 outsider), U aux
 func (s *Sim) opClean(op Op) *Violation {
 	chs := s.channels()
 	if len(chs) == 0 {
@@ -1032,8 +1051,8 @@ func (s *Sim) opClean(op Op) *Violation {
 	}
 	ch := chs[mod(op.A, len(chs))]
 	src := s.W.Chains[ch[0]]
-	n := s.pickN(src.Name, ch[0], ch[1], op.B, op.U)
-	relay := s.relayChoice(ch[0], ch[1], op.C)
+	n := s.pickN(src.Name, ch[0], ch[1], op.C, op.U)
+	relay := s.relayChoice(ch[0], ch[1], op.B)
 	signer := src.Accounts[[]int{world.RelayerIdx, 0, world.OutsiderIdx}[mod(op.D, 3)]]
 	cp := packettypes.NewCleanPacket(n, ch[0], ch[1], relay)
 	msg := packettypes.NewMsgCleanPacket(cp, signer.Addr)
